@@ -62,10 +62,10 @@ type c06Outer struct {
 	hidden int64
 }
 
-func (o c06Outer) ValM() int64          { return o.A + 1 }
-func (o *c06Outer) PtrM() int64         { return o.A + 2 }
-func (o c06Outer) Add(x int64) int64    { return o.A + x }
-func (i c06Inner) Double() int64        { return i.Leaf * 2 }
+func (o c06Outer) ValM() int64       { return o.A + 1 }
+func (o *c06Outer) PtrM() int64      { return o.A + 2 }
+func (o c06Outer) Add(x int64) int64 { return o.A + x }
+func (i c06Inner) Double() int64     { return i.Leaf * 2 }
 
 // named non-struct types with pointer-receiver methods
 type c06NamedSlice []int64
@@ -80,6 +80,17 @@ func (n *c06NamedInt) PVal() int64 { return int64(*n) + 1 }
 type c06NamedMap map[string]int64
 
 func (m *c06NamedMap) PGet() int64 { return (*m)["k"] }
+
+// exported names need not be ASCII
+func (o c06Outer) Überblick() int64      { return o.A + 3 }
+func (o *c06Outer) Ändern(x int64) int64 { return o.A - x }
+func (m c06NamedMap) Älteste() int64     { return m["k"] + 1 }
+func (i c06Inner) Ökonomie() int64       { return i.Leaf + 4 }
+
+type c06Stadt struct {
+	Größe int64
+	Ärzte []int64
+}
 
 // c06Access: access paths with the Go expression that reads the same datum.
 var c06Access = []struct {
@@ -170,6 +181,15 @@ var c06Access = []struct {
 	// arrays: elements by index, through pointers, of arrays
 	{"arr2[1][0]", func(d *c06Outer) int64 { return 30 }},
 	{"parr[2]", func(d *c06Outer) int64 { return 3 }},
+	// exported field and method names that do not start with an ASCII letter
+	{"d.Überblick()", func(d *c06Outer) int64 { return d.A + 3 }},
+	{"v.Überblick()", func(d *c06Outer) int64 { return d.A + 3 }},
+	{"d.Ändern(5)", func(d *c06Outer) int64 { return d.A - 5 }},
+	{"nm.Älteste()", func(d *c06Outer) int64 { return 6 }},
+	{"d.In.Ökonomie()", func(d *c06Outer) int64 { return d.In.Leaf + 4 }},
+	{"d.Nested.n[0].Ökonomie()", func(d *c06Outer) int64 { return d.Nested["n"][0].Leaf + 4 }},
+	{"stadt.Größe", func(d *c06Outer) int64 { return 9 }},
+	{`stadt["Größe"] * z + stadt.Ärzte[1]`, func(d *c06Outer) int64 { return 2 }},
 }
 
 type c06List struct {
@@ -284,6 +304,7 @@ func H_C06_access() {
 	vars.Set("lists", &c06List{V: 1, IfTail: emptyList})
 	vars.Set("arr2", [2][2]int64{{10, 20}, {30, 40}})
 	vars.Set("parr", &[3]int64{1, 2, 3})
+	vars.Set("stadt", c06Stadt{9, []int64{1, 2}})
 	vars.Set("baseAlone", C06Base{10, 20})
 	vars.Set("user", c06User{C06Base{10, 20}, 30})
 	vars.Set("deepAlone", C06Deep{C06DInner{40}})
@@ -458,17 +479,17 @@ func H_C06_failures() {
 
 // C06Rec is a recursive node that can be left through every kind of link.
 type C06Rec struct {
-	V     int64
-	Next  *C06Rec
-	Val   *C06RecVal // a struct value holding the next node
-	M     map[string]*C06Rec
-	IM    map[int]*C06Rec
-	L     []*C06Rec
-	Arr   [2]*C06Rec
-	I     interface{}
-	PP    **C06Rec
+	V         int64
+	Next      *C06Rec
+	Val       *C06RecVal // a struct value holding the next node
+	M         map[string]*C06Rec
+	IM        map[int]*C06Rec
+	L         []*C06Rec
+	Arr       [2]*C06Rec
+	I         interface{}
+	PP        **C06Rec
 	C06RecEmb // promoted field Prom
-	hidden *C06Rec
+	hidden    *C06Rec
 }
 
 type C06RecVal struct{ Inner C06RecInner }
